@@ -19,8 +19,15 @@ MANIFEST_ENTRY = {
           "C05_full: for EVERY proper tree outside C05-K1 / C05-K2 and EVERY initial state, the code the tree compiler "
           "produces is well-formed (induction on the tree with the pending-bodies invariant: every placeholder is owned by a "
           "registered body or arm, every registered body is emitted, patches its placeholder, adds an instruction and ends in "
-          "a terminator). What remains bounded is the equality of the tree compiler with the worklist transliteration of "
-          "build(), which is also diffed on every run. On every run the worklist model, the tree compiler and the real "
+          "a terminator). compile_agrees_full (Proofs/Builder/*.v, by induction on the tree: one iteration of build()'s node loop "
+          "is one visit of a node, draining a subtree emits its inline code and registers its bodies and arms, the root loop "
+          "emits the bodies LIFO): for EVERY node array and root that form a proper tree (tree_of nodes root = Some t), every "
+          "initial state, literal oracle and fuel, a successful run of the worklist model of build() IS the tree compiler's "
+          "result -- same instructions, metadata, jump table, entry; with it C05_full_builder and C05_operands_meta_builder "
+          "state the inductive theorems directly for BuilderWL.build. What remains bounded: nothing about code shape; not "
+          "proved are the converse direction (the tree compiler succeeds => the worklist model succeeds within build_fuel; "
+          "only error-class and termination statements need it) and that validate_tree implies tree_of (the trees the parser "
+          "model produces satisfy tree_of on every input the run and the bounded theorems see). On every run the worklist model, the tree compiler and the real "
           "build() are diffed instruction-for-instruction on all token triples, a fixed corpus, grammar-generated programs and "
           "programs built after another program, on both data implementations, and the checker is evaluated natively on every "
           "real instruction stream and must agree with the extracted Coq checker.",
@@ -192,7 +199,7 @@ def run(tier, seed):
     sy = vplib.sync(["instr", "defs", "tokentypes", "execmap"])
     for name, err in sy.get("errors", {}).items():
         v.tie_failure("translator %s: %s" % (name, err))
-    pr = vplib.prove(PID, ["Proofs/C05"], extra_targets=["Extract/WfExtract.vo"])
+    pr = vplib.prove(PID, ["Proofs/C05", "Proofs/Builder"], extra_targets=["Extract/WfExtract.vo"])
     for f in pr["failures"]:
         v.tie_failure("prove: " + f)
     v.coverage.update(vplib.proof_coverage(
